@@ -171,20 +171,20 @@ Fixpoint lincomb_fuel (fuel : nat) (cast : T -> T) (r : regime) (bi : blasinfo) 
   end.
 
 (* ---------- Part 3: NumpyTensorSpace._lincomb/_multiply/_divide.
-   [fl] = is_floating_dtype(dtype); [bdt] = dtype in _BLAS_DTYPES;
+   [fl] = is_floating_dtype(dtype); [bdt] = type code and byte order of the dtype;
    [flags] = (c_contiguous, f_contiguous) of x1.data, x2.data, out.data.
    All arrays of one tensor space have the same dtype. *)
-Definition blas_info (bdt : bool) (flags : list (bool * bool)) : blasinfo :=
+Definition blas_info (bdt : dtinfo) (flags : list (bool * bool)) : blasinfo :=
   let fo := nth 2 flags (false, false) in
   let view := match blas_ravel_order (snd fo) with OrdF => snd fo | OrdC => fst fo end in
-  {| bi_view := view; bi_call := view && bdt |}.
+  {| bi_view := view; bi_call := view && native_blas bdt |}.
 
 (* [size] is x1.size; it only selects the regime *)
-Definition lincomb_impl_sz (cast : T -> T) (fl bdt : bool) (flags : list (bool * bool)) (size : Z)
+Definition lincomb_impl_sz (cast : T -> T) (fl : bool) (bdt : dtinfo) (flags : list (bool * bool)) (size : Z)
            (a : T) (x1 : nat) (b : T) (x2 : nat) (out : nat) (s : store) : outcome :=
   lincomb_fuel 2 cast (regime_of size fl (blas_applicable true bdt size flags)) (blas_info bdt flags)
     {| e_a := a; e_b := b; e_x1 := x1; e_x2 := x2; e_out := out |} s.
-Definition lincomb_impl (cast : T -> T) (fl bdt : bool) (flags : list (bool * bool))
+Definition lincomb_impl (cast : T -> T) (fl : bool) (bdt : dtinfo) (flags : list (bool * bool))
            (a : T) (x1 : nat) (b : T) (x2 : nat) (out : nat) (s : store) : outcome :=
   lincomb_impl_sz cast fl bdt flags (Z.of_nat (length (s x1))) a x1 b x2 out s.
 
@@ -192,7 +192,7 @@ Definition lincomb_impl (cast : T -> T) (fl bdt : bool) (flags : list (bool * bo
 Definition pick3 {A} (o : operand) (v1 v2 vo : A) : A := match o with X1 => v1 | X2 => v2 | OUT => vo end.
 Definition sval2 (a b : T) (c : sc) : T :=
   sval {| e_a := a; e_b := b; e_x1 := O; e_x2 := O; e_out := O |} c.
-Definition tensor_lincomb (cast : T -> T) (fl bdt : bool) (flg : nat -> bool * bool)
+Definition tensor_lincomb (cast : T -> T) (fl : bool) (bdt : dtinfo) (flg : nat -> bool * bool)
            (a : T) (x1 : nat) (b : T) (x2 : nat) (out : nat) (s : store) : outcome :=
   let '(pa, p1, pb, p2, po) := tensor_lincomb_call in
   let i1 := pick3 p1 x1 x2 out in let i2 := pick3 p2 x1 x2 out in let io := pick3 po x1 x2 out in
